@@ -8,6 +8,7 @@ package c18
 
 import (
 	"fmt"
+	"math/big"
 	"reflect"
 	"strconv"
 	"strings"
@@ -163,6 +164,34 @@ func versioned[T any](version eth2spec.DataVersion, blinded bool, seed uint64) *
 	return x
 }
 
+// withExtras populates the fields of a "Versioned…" union that lie outside the fork variants (e.g.
+// VersionedAttestation.ValidatorIndex, VersionedProposal.ConsensusValue / ExecutionValue): optional
+// pointers that only some producers (JSON decoding, builder responses) set.
+func withExtras(x any, seed uint64) {
+	v := reflect.ValueOf(x).Elem()
+	t := v.Type()
+	fl := &filler{n: seed*100_000 + 77_000}
+outer:
+	for i := 0; i < t.NumField(); i++ {
+		n := t.Field(i).Name
+		if n == "Version" || n == "Blinded" || !t.Field(i).IsExported() {
+			continue
+		}
+		for _, vn := range versionNames {
+			if strings.HasPrefix(n, vn) {
+				continue outer
+			}
+		}
+		if t.Field(i).Type == bigIntPtrT {
+			v.Field(i).Set(reflect.ValueOf(new(big.Int).SetUint64(1_000_000_007*fl.u() + seed)))
+			continue
+		}
+		fl.fill(v.Field(i), t.Field(i).Tag)
+	}
+}
+
+var bigIntPtrT = reflect.TypeOf((*big.Int)(nil))
+
 // setSlot sets the first uint field called Slot found under v (through Block / Message / SignedBlock /
 // Data / Contribution / Aggregate wrappers).
 func setSlot(v reflect.Value, slot uint64) bool {
@@ -252,7 +281,15 @@ func mkProposal(f fork, slot, seed uint64) *eth2api.VersionedProposal {
 }
 
 func mkUnsignedProposal(f fork, slot, seed uint64) core.VersionedProposal {
-	p, err := core.NewVersionedProposal(mkProposal(f, slot, seed))
+	return mkUnsignedProposalX(f, slot, seed, false)
+}
+
+func mkUnsignedProposalX(f fork, slot, seed uint64, extras bool) core.VersionedProposal {
+	vp := mkProposal(f, slot, seed)
+	if extras {
+		withExtras(vp, seed)
+	}
+	p, err := core.NewVersionedProposal(vp)
 	if err != nil {
 		panic(err)
 	}
@@ -280,8 +317,17 @@ func mkVerAtt(f fork, slot, comm, seed uint64) *eth2spec.VersionedAttestation {
 }
 
 func mkUnsignedAgg(f fork, slot, comm, seed uint64) core.VersionedAggregatedAttestation {
+	return mkUnsignedAggX(f, slot, comm, seed, false)
+}
+
+// mkUnsignedAggX: extras = the aggregate carries a validator index (as a JSON-decoded one can; the SSZ
+// clone of the stores drops it, so reference values are built without).
+func mkUnsignedAggX(f fork, slot, comm, seed uint64, extras bool) core.VersionedAggregatedAttestation {
 	va := mkVerAtt(f, slot, comm, seed)
 	va.ValidatorIndex = nil
+	if extras {
+		withExtras(va, seed)
+	}
 	a, err := core.NewVersionedAggregatedAttestation(va)
 	if err != nil {
 		panic(err)
